@@ -12,6 +12,16 @@ import (
 // seed (through the guarded hook in /repo, build tag verif).
 func pinSeed(seed int32) { rsynccmd.VerifSetSeed(func(int32) int32 { return seed }) }
 
+// setReadWindow shrinks the sender's read window to max(3*blockLength, n);
+// n <= 0 restores the shipped value.
+func setReadWindow(n int) {
+	if n <= 0 {
+		rsynccmd.VerifSetReadWindow(nil)
+		return
+	}
+	rsynccmd.VerifSetReadWindow(func(bl, v int32) int32 { return max(3*bl, int32(n)) })
+}
+
 func setListeners(f func([]net.Listener) []net.Listener) { rsynccmd.VerifSetListeners(f) }
 
 func relaxLandlock() { rsynccmd.VerifRelaxLandlock() }
